@@ -390,9 +390,12 @@ func (hs *clientHandshakeState) handshake() error {
 		if err = hs.sendFinished(c.clientFinished[:]); err != nil {
 			return err
 		}
+		// 会话恢复时客户端发送最后一 flight：保存以便在 2*MSL 驻留期内响应服务端的重传
+		c.flightRetransmit = append([]byte(nil), c.sendBuf...)
 		if _, err = c.flush(); err != nil {
 			return err
 		}
+		c.dwellDeadline = time.Now().Add(dwellPeriod)
 	} else {
 		// === 全握手 ===
 		// Flight 4: 接收 Certificate + ServerKeyExchange* + CertificateRequest* + ServerHelloDone
